@@ -82,6 +82,9 @@ def produce(recipes, out, protocols):
                         ev["blob"] = base64.b64encode(pickle.dumps(e, protocol=proto)).decode()
                         if r["kind"] == "expr":     # after pickling: must not pre-hash "hash-after" cases
                             ev["digests"] = digests(e)
+                        else:       # what the callable returns HERE, for the documented argument order
+                            n = len(r["allvars"])
+                            ev["outcome"] = repr(refsem.outcome(lambda: e(*ARGS[:n])))
                     except Exception as ex:  # noqa: BLE001
                         ev["error"] = f"{type(ex).__name__}: {ex}"
                     f.write(json.dumps(ev) + "\n")
@@ -112,6 +115,9 @@ def consume(recipes, producer_log, out):
                     b = refsem.outcome(lambda: mine(*ARGS[:n]))
                     if not refsem.same_outcome(a, b):
                         ev["problems"].append(f"compiled: transferred={a!r} local={b!r}")
+                    if "outcome" in pe and repr(a) != pe["outcome"]:
+                        ev["problems"].append(f"compiled: transferred callable returns {a!r} here, "
+                                              f"returned {pe['outcome']} in the producer")
                 else:
                     chk = {"eq": got == mine, "eq_rev": mine == got, "ne": not (got != mine),
                            "type": type(got) is type(mine),
